@@ -43,6 +43,12 @@ def _is_self_attr(node, attr=None):
         and (attr is None or node.attr == attr)
 
 
+def _only_raises(fn):
+    """a method whose body is (a docstring and) `raise NotImplementedError`: a hook the subclasses must fill in"""
+    body = [b for b in fn.body if not (isinstance(b, ast.Expr) and isinstance(getattr(b, "value", None), ast.Constant))]
+    return len(body) == 1 and isinstance(body[0], ast.Raise) and "NotImplemented" in ast.unparse(body[0])
+
+
 def _is_value_call(node):
     if not isinstance(node, ast.Call) or len(node.args) != 1:
         return False
@@ -81,6 +87,16 @@ class Source:
         if name not in self.classes or name in seen:
             return False
         return any(self.is_pattern(b, seen + (name,)) for b in self.bases(name))
+
+    def ancestors(self, name):
+        out = []
+        while name in self.classes:
+            bs = self.bases(name)
+            if not bs:
+                break
+            name = bs[0]
+            out.append(name)
+        return out
 
     def find_method(self, name, meth):
         """(FunctionDef, owner) along the single-inheritance chain"""
@@ -298,13 +314,20 @@ def derive(repo):
         if methods is None:
             abstract.append(cls)                       # no __next__ of its own (PStochasticPattern, PBinOp, PWarp, PFade)
             continue
-        init, _ = src.find_method(cls, "__init__")
+        init, init_owner = src.find_method(cls, "__init__")
         if init is None:
             raise RegistryError("%s: a pattern class with __next__ but without a constructor" % cls)
         amap = src.attr_map(cls)
+        # which class defines the code this class runs (a class that inherits both __next__ and the constructor from a base
+        # runs the base's code: exercising the one exercises the other) and whether the class itself can be instantiated
+        code_owner = (src.find_method(cls, "__next__")[1], init_owner)
+        placeholder = sorted(m.name for mm in methods for node in ast.walk(mm)
+                             if isinstance(node, ast.Call) and _is_self_attr(node.func)
+                             for m, o in [src.find_method(cls, node.func.attr)] if m is not None and _only_raises(m))
         for p, kind, ann in src.params_of(init):
             attr = amap.get(p)
-            info = dict(cls=cls, param=p, kind=kind, attr=attr, file=src.classes[cls][1], evidence=[])
+            info = dict(cls=cls, param=p, kind=kind, attr=attr, file=src.classes[cls][1], evidence=[],
+                        code_owner=code_owner, bases=src.ancestors(cls), placeholder_methods=placeholder)
             if attr is None:
                 info.update(mode="unmapped", nvalue=0, nnext=0, raw=0, items=0, in_loop=False, overwrite=False, raw_elsewhere=0)
             else:
